@@ -247,15 +247,16 @@ def run_enumeration(ctx, cases, check, name, max_violations=5):
     ctx.exhaustive[name] = n
 
 
-def guarded(ctx, case, fn):
+def guarded(ctx, case, fn, secs=6):
     """Run fn() inside a hand-written enumeration loop: a Violation, or an unexpected exception that escaped from
     library code, is recorded (once per bucket) instead of aborting the shard. Returns True when fn() completed."""
     try:
-        with watchdog():
+        with watchdog(secs):
             fn()
         return True
     except CaseTimeout:
         ctx.timeouts += 1
+        ctx.inconclusive.append(f'enumeration unit cut short after {secs}s: {json.dumps(case, default=repr)[:200]}')
         return False
     except HarnessError:
         raise
